@@ -1046,6 +1046,133 @@ fn gen_tx_kind(rng: &mut Rng, kind: usize, thorough: bool) -> Transaction {
     tx
 }
 
+
+// ------------------------------------------------------------------------------- long vectors (oracle only)
+/// (kind, element type, counts): vectors whose in-memory size exceeds 1 MiB, 4 MiB and 16 MiB for
+/// every element type that occurs under a Vec in the protocol types.  Too big for vm_compute:
+/// implementation-level oracle only.
+const LONG_VECTORS: [(&str, &str, [usize; 3]); 6] = [
+    ("vec-u64", "u64 (8 B)", [200_000, 600_000, 2_200_000]),
+    ("create-storage-slots", "StorageSlot (64 B)", [20_000, 70_000, 270_000]),
+    ("script-witnesses", "Witness (24 B)", [50_000, 180_000, 720_000]),
+    ("script-inputs", "Input (184 B)", [8_000, 24_000, 95_000]),
+    ("script-outputs", "Output (80 B)", [16_000, 56_000, 215_000]),
+    ("upload-proof-set", "Bytes32 (32 B)", [40_000, 140_000, 540_000]),
+];
+
+fn long_check<T: Serialize + Deserialize + PartialEq>(out: &mut Out, prop: &str, kind: &str, elem: &str, count: usize, seed: u64, v: &T) {
+    out.oracle_evaluations += 1;
+    let replay = json!({"kind": "long-vector", "which": kind, "count": count, "seed": seed, "prop": prop});
+    let r = guarded(|| {
+        let bytes = v.to_bytes();
+        let size = v.size();
+        if bytes.len() != size || size % 8 != 0 {
+            return Some(format!("to_bytes().len() {} != size() {}", bytes.len(), size));
+        }
+        let mut buf = &bytes[..];
+        match T::decode(&mut buf) {
+            Err(e) => Some(format!("decode(encode(v)) = Err({})", err_kind(&e))),
+            Ok(v2) => {
+                let consumed = bytes.len() - buf.len();
+                if consumed != bytes.len() {
+                    Some(format!("decode consumed {} of {} bytes (decoded size() = {})", consumed, bytes.len(), v2.size()))
+                } else if v2.size() != consumed {
+                    Some(format!("decoded size() {} != consumed {}", v2.size(), consumed))
+                } else if v2 != *v {
+                    Some("decode(encode(v)) != v".to_string())
+                } else if v2.to_bytes() != bytes {
+                    Some("re-encoding of the decoded value differs".to_string())
+                } else {
+                    None
+                }
+            }
+        }
+    });
+    let problem = match r {
+        Ok(p) => p,
+        Err(p) => Some(format!("panicked: {p}")),
+    };
+    match problem {
+        Some(what) => out.oracle_fail(
+            "long-vector-round-trip",
+            &format!("{kind}: Vec of {count} x {elem} does not round-trip: {what}"),
+            replay,
+        ),
+        None => out.count(&format!("oracle/long-vector/{kind}")),
+    }
+}
+
+/// regenerate the value from (kind, count, seed) and check it
+fn long_vector_oracle(out: &mut Out, prop: &str, kind: &str, count: usize, seed: u64) {
+    let mut rng = Rng::new(seed);
+    let elem = LONG_VECTORS.iter().find(|x| x.0 == kind).map(|x| x.1).unwrap_or("?");
+    match kind {
+        "vec-u64" => {
+            let v: Vec<u64> = (0..count).map(|_| rng.next()).collect();
+            long_check(out, prop, kind, elem, count, seed, &v);
+        }
+        "create-storage-slots" => {
+            let slots: Vec<StorageSlot> = (0..count).map(|i| {
+                let mut k = [0u8; 32];
+                k[..8].copy_from_slice(&(i as u64).to_be_bytes());
+                StorageSlot::new(k.into(), rng.bytes32().into())
+            }).collect();
+            let tx = Transaction::create(0, gen_policies(&mut rng), b32(&mut rng).into(), slots, vec![], vec![], vec![rng.bytes(5).into()]);
+            long_check(out, prop, kind, elem, count, seed, &tx);
+            long_check(out, prop, kind, elem, count, seed, &Transaction::from(tx));
+        }
+        "script-witnesses" => {
+            let ws: Vec<Witness> = (0..count).map(|i| rng.bytes(i % 9).into()).collect();
+            let tx = Transaction::script(1, vec![1, 2, 3], vec![4], gen_policies(&mut rng), vec![], vec![], ws);
+            long_check(out, prop, kind, elem, count, seed, &tx);
+            long_check(out, prop, kind, elem, count, seed, &Transaction::from(tx));
+        }
+        "script-inputs" => {
+            let ins: Vec<Input> = (0..count).map(|i| {
+                let (pl, pdl, dl) = (1 + i % 5, i % 3, 1 + i % 4);
+                gen_input_kind(&mut rng, i % 7, pl, pdl, dl)
+            }).collect();
+            let tx = Transaction::script(1, vec![1, 2, 3], vec![4], gen_policies(&mut rng), ins, vec![gen_output(&mut rng)], vec![]);
+            long_check(out, prop, kind, elem, count, seed, &tx);
+            long_check(out, prop, kind, elem, count, seed, &Transaction::from(tx));
+        }
+        "script-outputs" => {
+            let outs: Vec<Output> = (0..count).map(|i| gen_output_kind(&mut rng, i % 5)).collect();
+            let tx = Transaction::script(1, vec![], vec![], gen_policies(&mut rng), vec![gen_input(&mut rng, false)], outs, vec![]);
+            long_check(out, prop, kind, elem, count, seed, &tx);
+            long_check(out, prop, kind, elem, count, seed, &Transaction::from(tx));
+        }
+        "upload-proof-set" => {
+            let body = UploadBody {
+                root: b32(&mut rng).into(),
+                witness_index: 0,
+                subsection_index: 1,
+                subsections_number: 2,
+                proof_set: (0..count).map(|_| rng.bytes32().into()).collect(),
+            };
+            let tx = Transaction::upload(body, gen_policies(&mut rng), vec![], vec![], vec![rng.bytes(3).into()]);
+            long_check(out, prop, kind, elem, count, seed, &tx);
+            long_check(out, prop, kind, elem, count, seed, &Transaction::from(tx));
+        }
+        "script-3000-inputs-3000-outputs" => {
+            let ins: Vec<Input> = (0..count).map(|i| gen_input_kind(&mut rng, i % 7, 2, 1, 3)).collect();
+            let outs: Vec<Output> = (0..count).map(|i| gen_output_kind(&mut rng, i % 5)).collect();
+            let tx: Transaction = Transaction::script(1, vec![1], vec![], gen_policies(&mut rng), ins, outs, vec![]).into();
+            long_check(out, prop, kind, "Input (184 B) / Output (80 B)", count, seed, &tx);
+        }
+        other => out.notes.push(format!("long-vector replay: unknown kind {other}")),
+    }
+}
+
+fn long_vector_stream(out: &mut Out, prop: &str, seed: u64) {
+    for (kind, _, counts) in LONG_VECTORS {
+        for (j, count) in counts.iter().enumerate() {
+            long_vector_oracle(out, prop, kind, *count, seed.wrapping_add(j as u64));
+        }
+    }
+    long_vector_oracle(out, prop, "script-3000-inputs-3000-outputs", 3000, seed);
+}
+
 // ------------------------------------------------------------------------------- C01
 fn c01_case<T: Proto>(out: &mut Out, v: &T, stream: &str, model: bool) {
     out.oracle_evaluations += 1;
@@ -1286,6 +1413,8 @@ fn run_c01(args: &Args, out: &mut Out) {
     c01_case(out, &Input::default(), "crate-default", model);
     c01_case(out, &Output::default(), "crate-default", model);
     c01_case(out, &Policies::default(), "crate-default", model);
+    // ---- long vectors (> 1 MiB / 4 MiB / 16 MiB of elements): oracle only
+    long_vector_stream(out, "C01", args.seed ^ 0x10C6);
     // ---- oracle-only volume (implementation-level check, no model)
     let extra = if args.oracle_only { args.scale(20000, 200000) } else { args.scale(2000, 100000) };
     for _ in 0..extra {
@@ -1323,6 +1452,10 @@ fn big_witness_oracle(out: &mut Out, len: usize) {
 }
 
 fn replay_c01(out: &mut Out, v: &serde_json::Value) {
+    if v["kind"] == "long-vector" {
+        long_vector_oracle(out, "C01", v["which"].as_str().unwrap_or(""), v["count"].as_u64().unwrap_or(0) as usize, v["seed"].as_u64().unwrap_or(0));
+        return;
+    }
     if v["kind"] == "c01-big-witness" {
         big_witness_oracle(out, v["len"].as_u64().unwrap_or(0) as usize);
         return;
@@ -1403,6 +1536,10 @@ fn run_c02(args: &Args, out: &mut Out) {
     let model = !args.oracle_only;
     if let Some(p) = &args.replay {
         let v = read_replay(p);
+        if v["kind"] == "long-vector" {
+            long_vector_oracle(out, "C02", v["which"].as_str().unwrap_or(""), v["count"].as_u64().unwrap_or(0) as usize, v["seed"].as_u64().unwrap_or(0));
+            return;
+        }
         let ty: &'static str = ["Transaction", "Input", "Output", "Receipt", "Policies", "Witness", "Script", "Create", "Mint", "Upgrade", "Upload", "Blob",
                                 "StorageSlot", "UtxoId", "TxPointer", "UpgradePurpose"]
             .iter().copied().find(|t| Some(*t) == v["ty"].as_str()).expect("replay: ty");
@@ -1552,6 +1689,8 @@ fn run_c02(args: &Args, out: &mut Out) {
             let _ = &mk;
         }
     }
+    // 8. long valid encodings (oracle only): decode -> size == consumed -> re-encode equal
+    long_vector_stream(out, "C02", args.seed ^ 0x10C6);
     out.notes.push("C02 'never panics' is a runtime property: it is exercised by this guarded mutation stream only (testing, not proof)".into());
 }
 
